@@ -4,6 +4,18 @@ NOTES = ("Every check re-checks the Coq theorems of coq/Props/<id>.v (full .vo b
          "See DESIGN.md for the trusted base and known_findings.json for recorded defects.")
 NOT_APPLICABLE = {}
 CLAIMED = {
+ "C18": {
+  "text": "Partial. Data-race freedom cannot be stated about an executable Gallina model: it is observed, not proved - "
+          "groups of goroutines create and drive their own runners under the race detector and each trace is compared "
+          "with the model's solo trace. Proved is the logical half: in the model a runner owns all of its state, so for "
+          "any number of runners and ANY interleaving of their operations each runner's state is that of its solo run "
+          "(interleaving_projection).",
+  "design_ref": "DESIGN.md section 5, C18",
+  "note": "Package-level variables of the Go code (argConverterByGoalKind, endOfCharacterMarker, typeError, ANTLR static "
+          "data and its DFA caches) are constants of the model; whether they stay read-only / synchronised is what the "
+          "race detector run checks.",
+  "technique": "Coq frame proof over interleavings + race-detector soak with trace comparison against the model",
+ },
  "C05": {
   "text": "Partial. Which byte strings are valid scripts is decided by the generated ANTLR lexer/parser (not modelled, "
           "cannot be regenerated offline), so the acceptance claim is checked by differential fuzzing, not proved: "
